@@ -47,6 +47,7 @@ var c07ErrMap = &kernel.Error{Module: "verif", Message: "injected map failure"}
 const c07PageBudget = 1 << 20
 
 func c07Run(c c07Case) (*vlib.Failure, c07Stats) {
+	defer vlib.Guard("C07", c, nil)()
 	var rs c07Stats
 	defer vmRestore()
 	vmRestore()
